@@ -1,8 +1,9 @@
 (** Proofs for C02: select is exact and inverse to rank. *)
-From Coq Require Import ZArith List Lia Bool.
+From Coq Require Import ZArith List Lia Bool ZifyNat.
 From Low Require Import Lib.MachInt Lib.Bits Lib.BitSeq Lib.BitsExtra_c02 Model.Rank Model.Select Spec.RankSpec Spec.SelectSpec Proofs.RankProofs.
 Import ListNotations.
 Open Scope Z_scope.
+Ltac Zify.zify_post_hook ::= Z.div_mod_to_equations.
 
 Definition table_row_ok (b : nat) : bool :=
   forallb (fun j => match nth_error select8Lookup (8 * b + j) with
@@ -180,4 +181,101 @@ Proof.
     rewrite (siw16_spec _ _ v') by (try apply Z.div_pos; (lia || (right; reflexivity) || exact Hn')).
     f_equal.
   - rewrite (siw16_spec _ _ v) by (lia || (left; reflexivity) || exact H). f_equal. lia.
+Qed.
+
+(** * IndexSelect32 *)
+
+(** every 32nd element, [r] elements to go before the next one is taken *)
+Fixpoint pick32 (r : nat) (l : list Z) : list Z :=
+  match l with
+  | [] => []
+  | x :: t => match r with O => x :: pick32 31 t | S r' => pick32 r' t end
+  end.
+
+Lemma pick32_skipn : forall r l, pick32 r l = pick32 0 (skipn r l).
+Proof.
+  induction r as [|r IH]; intros l; [reflexivity|].
+  destruct l as [|x t]; [reflexivity|]. cbn [pick32]. rewrite skipn_cons. apply IH.
+Qed.
+
+Lemma nth_skipn {A} m : forall n (l : list A) d, nth n (skipn m l) d = nth (m + n) l d.
+Proof.
+  induction m as [|m IH]; intros n l d; [reflexivity|].
+  destruct l as [|x l]; [cbn; now destruct n|]. rewrite skipn_cons. cbn [Nat.add nth]. apply IH.
+Qed.
+
+Lemma pick32_spec : forall m l, (length l <= m)%nat ->
+  pick32 0 l = map (fun k => nth (32 * k) l 0) (seq 0 ((length l + 31) / 32)).
+Proof.
+  induction m as [|m IH]; intros l Hm.
+  - destruct l; [reflexivity|cbn in Hm; lia].
+  - destruct l as [|x t]; [reflexivity|].
+    cbn [pick32]. rewrite pick32_skipn.
+    assert (Hlen : length (skipn 31 t) = (length t - 31)%nat) by apply skipn_length.
+    rewrite IH by (cbn [length] in Hm; lia).
+    replace ((length (x :: t) + 31) / 32)%nat with (S ((length (skipn 31 t) + 31) / 32)).
+    2:{ rewrite Hlen. cbn [length]. lia. }
+    cbn [seq map]. f_equal.
+    rewrite <- seq_shift, map_map. apply map_ext. intros k.
+    rewrite nth_skipn. replace (32 * S k)%nat with (S (31 + 32 * k)) by lia. reflexivity.
+Qed.
+
+Lemma test_bit_expr w j : 0 <= j < 64 ->
+  negb (Z.land w (shl64 1 j) =? 0) = Z.testbit w j.
+Proof.
+  intros Hj. rewrite shl64_small by (split; [lia|]; try lia;
+    rewrite Z.mul_1_l; apply Z.pow_lt_mono_r; lia).
+  rewrite Z.mul_1_l, land_bit_testbit by lia.
+  assert (0 < 2 ^ j) by (apply Z.pow_pos_nonneg; lia).
+  destruct (Z.testbit w j); [destruct (Z.eqb_spec (2 ^ j) 0); [lia|reflexivity]|reflexivity].
+Qed.
+
+Lemma word_at ws (i : nat) : (i < 64 * length ws)%nat ->
+  exists w, nth_error ws (i / 64) = Some w /\
+            nthZ ws (Z.shiftr (Z.of_nat i) 6) = Some w /\
+            nth_error (flat ws) i = Some (Z.testbit w (Z.land (Z.of_nat i) 63)) /\
+            0 <= Z.land (Z.of_nat i) 63 < 64.
+Proof.
+  intros Hi.
+  destruct (nth_error_exists ws (i / 64) ltac:(lia)) as [w Hw]. exists w.
+  destruct (pos_split (Z.of_nat i) ltac:(lia)) as (E1 & E2 & _ & E4 & _).
+  rewrite E1, E2. repeat split; try lia.
+  - exact Hw.
+  - replace (Z.of_nat i / 64) with (Z.of_nat (i / 64)) by lia. now rewrite nthZ_of_nat.
+  - replace i with (64 * (i / 64) + i mod 64)%nat at 1 by lia.
+    rewrite (nth_error_flat ws _ w) by (exact Hw || lia). do 2 f_equal. lia.
+Qed.
+
+Lemma IndexSelect32_loop_spec ws : forall f (i : nat) ith (r : nat),
+  (i + f = 64 * length ws)%nat -> (r < 32)%nat -> (ith + 1 + Z.of_nat r) mod 32 = 0 ->
+  IndexSelect32_loop f ws (Z.of_nat i) ith =
+  Some (pick32 r (ones_from (Z.of_nat i) (skipn i (flat ws)))).
+Proof.
+  induction f as [|f IH]; intros i ith r Hi Hr Hith.
+  - cbn [IndexSelect32_loop]. rewrite skipn_all2 by (rewrite flat_length; lia). reflexivity.
+  - cbn [IndexSelect32_loop].
+    destruct (word_at ws i ltac:(lia)) as (w & _ & Hz & Hb & Hj). rewrite Hz.
+    rewrite test_bit_expr by exact Hj.
+    rewrite (skipn_nth_cons _ _ _ Hb). cbn [ones_from].
+    replace (Z.of_nat i + 1) with (Z.of_nat (S i)) by lia.
+    destruct (Z.testbit w (Z.land (Z.of_nat i) 63)).
+    + change 31 with (Z.ones 5). rewrite Z.land_ones by lia. change (2 ^ 5) with 32.
+      destruct r as [|r].
+      * destruct (Z.eqb_spec ((ith + 1) mod 32) 0) as [_|Hne]; [|exfalso; lia].
+        rewrite (IH (S i) (ith + 1) 31%nat) by lia. reflexivity.
+      * destruct (Z.eqb_spec ((ith + 1) mod 32) 0) as [He|_]; [exfalso; lia|].
+        rewrite (IH (S i) (ith + 1) r) by lia. reflexivity.
+    + rewrite (IH (S i) ith r) by lia. reflexivity.
+Qed.
+
+Lemma IndexSelect32_pick ws : IndexSelect32 ws = Some (pick32 0 (all_ones ws)).
+Proof.
+  unfold IndexSelect32. rewrite (IndexSelect32_loop_spec ws _ 0%nat (-1) 0%nat) by (lia || reflexivity).
+  reflexivity.
+Qed.
+
+Lemma IndexSelect32_exact ws : IndexSelect32 ws = Some (spec_IndexSelect32 ws).
+Proof.
+  rewrite IndexSelect32_pick. unfold spec_IndexSelect32. cbv zeta.
+  now rewrite (pick32_spec (length (all_ones ws))) by lia.
 Qed.
